@@ -10,10 +10,19 @@ SINGLE = ["h", "t", "s", "sx", "x", "y", "z", "sdg", "tdg", ("rx", 0.7), ("ry", 
 
 
 def build_qc(gates, nq, seed):
-    from qiskit import QuantumCircuit
+    from qiskit import QuantumCircuit, QuantumRegister
     rng = random.Random(seed)
-    qc = QuantumCircuit(nq)
     desc = []
+    if nq >= 2 and rng.random() < 0.3:          # the same qubits spread over several registers (global index = position in the circuit)
+        cut = rng.randrange(1, nq)
+        regs = [QuantumRegister(cut, "a"), QuantumRegister(nq - cut, "b")]
+        if nq - cut >= 2 and rng.random() < 0.5:
+            cut2 = rng.randrange(1, nq - cut)
+            regs = [QuantumRegister(cut, "a"), QuantumRegister(cut2, "b"), QuantumRegister(nq - cut - cut2, "c")]
+        qc = QuantumCircuit(*regs)
+        desc.append(("registers", tuple(r.size for r in regs)))
+    else:
+        qc = QuantumCircuit(nq)
 
     def single(q):
         g = rng.choice(SINGLE)
@@ -91,12 +100,27 @@ def worker(st, ctx):
         multi = [f for f, inst in zip(flags, qc.data) if inst.operation.num_qubits >= 2]
         if list(multi) != list(st["ps"]) or set(rq) != set(st["rules"]):
             out["drift"] = "post-selection decisions %s rules %s, model %s rules %s for %s" % (multi, sorted(rq), list(st["ps"]), sorted(st["rules"]), gates)
+    import signal
+
+    class _Hang(BaseException):
+        pass
+
+    def _alarm(signum, frame):
+        raise _Hang()
+    old = signal.signal(signal.SIGALRM, _alarm)
+    signal.alarm(5)
     try:
         circ, ps = qubit.qiskit_converter(qc, allow_post_selection=allow)
+    except _Hang:
+        out["findings"].append(("unitary", "qiskit_converter did not return within 5 s (neither a circuit nor a refusal); gates %s" % (desc,)))
+        return out
     except Exception as e:  # noqa: BLE001
         if not st["refused"]:
             out["drift"] = (out["drift"] or "") + " converter refused (%s) where the model converts" % type(e).__name__
         return out
+    finally:
+        signal.alarm(0)
+        signal.signal(signal.SIGALRM, old)
     # the converter returned a circuit: whatever the model says, it must implement the unitary
     try:
         sc2, err, leak = check_amplitudes(qc, circ, ps)
